@@ -348,7 +348,13 @@ impl fjall::compaction::filter::Factory for KeepAllFactory {
 /// Opens the database; with `with_filters` a compaction filter factory (keep everything) is assigned to the
 /// keyspace names with an even index through the builder.
 fn open_db(dir: &std::path::Path, with_filters: bool) -> fjall::Result<Database> {
-    let b = Database::builder(dir).worker_threads_unchecked(0);
+    open_db2(dir, with_filters, false)
+}
+
+/// `db_manual`: the database-level manual_journal_persist flag (it governs batches and transactions; a keyspace's
+/// own stored option must not be affected by it).
+fn open_db2(dir: &std::path::Path, with_filters: bool, db_manual: bool) -> fjall::Result<Database> {
+    let b = Database::builder(dir).worker_threads_unchecked(0).manual_journal_persist(db_manual);
     if with_filters {
         b.with_compaction_filter_factories(std::sync::Arc::new(|name: &str| {
             let even = name.strip_prefix('o').and_then(|x| x.parse::<u32>().ok()).is_some_and(|i| i % 2 == 0);
@@ -373,7 +379,11 @@ fn case(idx: u64, seed: u64, stats: &mut Counts) -> R<(String, bool)> {
             if with_filters {
                 stats.inc("sessions_with_filter_assigner");
             }
-            let db = open_db(&dir, with_filters).map_err(|e| Deviation::new("unexpected-error:open", format!("{e:?}")))?;
+            let db_manual = rng.chance(1, 4);
+            if db_manual {
+                stats.inc("sessions_with_db_level_manual_persist");
+            }
+            let db = open_db2(&dir, with_filters, db_manual).map_err(|e| Deviation::new("unexpected-error:open", format!("{e:?}")))?;
             for i in 0..n {
                 let name = format!("o{i}");
                 let mut r2 = rng.fork();
@@ -416,7 +426,11 @@ fn case(idx: u64, seed: u64, stats: &mut Counts) -> R<(String, bool)> {
             if with_filters {
                 stats.inc("sessions_with_filter_assigner");
             }
-            let db = open_db(&dir, with_filters).map_err(|e| Deviation::new("options:reopen-failed", format!("reopen {round}: {e:?}")))?;
+            let db_manual = rng.chance(1, 4);
+            if db_manual {
+                stats.inc("sessions_with_db_level_manual_persist");
+            }
+            let db = open_db2(&dir, with_filters, db_manual).map_err(|e| Deviation::new("options:reopen-failed", format!("reopen {round}: {e:?}")))?;
             for (name, spec, stored) in &specs {
                 // pass different options on purpose
                 let mut r3 = rng.fork();
